@@ -68,8 +68,8 @@ func (t *traceWriter) emitCase(c *Case, pair string, allOrders bool) []Ret {
 	}
 	t.cases++
 	strStyle = t.cases % 2
-	if t.chainMode {
-		strStyle = 0 // Contains("xx") must mean "at least two characters"
+	if t.chainMode || c.Fe == "env" {
+		strStyle = 0 // Contains("xx") must mean "at least two characters"; the environment front end trims whitespace
 	}
 	defer func() {
 		// non-trivial: the call reported an issue or wrote the destination; distinct by schema+input+mode
